@@ -368,6 +368,21 @@ func (t *xTrial) resolve(p graphql.ResolveParams) (interface{}, error) {
 	return t.realize(o, pc, false)
 }
 
+// isTypeOf accepts every value (so it never changes the response) and checks the parameters
+// the property promises: the caller's context and the field's info
+func (t *xTrial) isTypeOf(p graphql.IsTypeOfParams, object string) bool {
+	t.mu.Lock()
+	defer t.mu.Unlock()
+	path := xPathStr(p.Info.Path.AsArray())
+	if p.Context == nil || p.Context.Value(xCtxKey{}) != t.ctxTag {
+		t.fails = append(t.fails, "caller's context did not reach IsTypeOf of "+object+" at "+path)
+	}
+	if p.Info.Operation == nil || p.Info.Fragments == nil || p.Info.FieldName == "" {
+		t.fails = append(t.fails, "IsTypeOf of "+object+" received an incomplete info at "+path)
+	}
+	return true
+}
+
 func (t *xTrial) resolveType(p graphql.ResolveTypeParams, abstract string) *graphql.Object {
 	t.mu.Lock()
 	defer t.mu.Unlock()
@@ -465,7 +480,7 @@ type xObserved struct {
 func xRun(rq *xRequest) *xObserved {
 	t := &xTrial{s: rq.s, seed: rq.seed, pol: rq.pol, callPaths: map[string]int{}, tags: map[string]bool{}, ctxTag: int(rq.seed%1000) + 1,
 		root: map[string]interface{}{"__root": int(rq.seed % 77)}}
-	b, err := rq.s.build(&xHooks{Resolve: t.resolve, ResolveType: t.resolveType})
+	b, err := rq.s.build(&xHooks{Resolve: t.resolve, ResolveType: t.resolveType, IsTypeOf: t.isTypeOf})
 	if err != nil {
 		return &xObserved{fails: []string{"generated schema rejected: " + err.Error()}, invalid: true}
 	}
